@@ -107,10 +107,13 @@ def clash_probe(out_src, search):
 
     tree = ast_parse(out_src, filename="o.py")
     hits = []
+    located = []
 
     def walk(n, modelled):
         if not modelled and getattr(n, "_location", None) == search:
             hits.append(type(n).__name__)
+        elif modelled and getattr(n, "_location", None) == search and hasattr(n, "lineno"):
+            located.append([n.lineno, n.col_offset])
         if isinstance(n, ast.FunctionDef):
             return  # visit_FunctionDef never descends
         for f, v in ast.iter_fields(n):
@@ -127,7 +130,13 @@ def clash_probe(out_src, search):
                 walk(c, m)
 
     walk(tree, True)
-    return hits
+    for n in ast.walk(tree):
+        # parameters of FunctionDefs are reached by visit_FunctionDef, not by the walk above
+        if isinstance(n, ast.FunctionDef):
+            for x in n.args.args + n.args.kwonlyargs:
+                if getattr(x, "_location", None) == search:
+                    located.append([x.lineno, x.col_offset])
+    return hits, sorted(located)
 
 
 def impl_case(case):
@@ -166,9 +175,9 @@ def impl_case(case):
     probe = {}
     search = list(strip_split(case["op"], "."))
     try:
-        probe["clash"] = clash_probe(case["out_src"], search)
+        probe["clash"], probe["located"] = clash_probe(case["out_src"], search)
     except BaseException as e:  # noqa
-        probe["clash"] = ["probe-" + type(e).__name__]
+        probe["clash"], probe["located"] = ["probe-" + type(e).__name__], []
     if case["eval"]:
         probe["eval"] = eval_probe(case["in_src"], case["ip"]) if "." not in case["ip"] else {"kind": "dotted"}
     else:
@@ -361,15 +370,46 @@ def input_facts(in_tree, ip_comps, in_cands):
     for c in in_cands:
         kinds.add("kwonly" if c.get("list") == "kwonlyargs" else ("param" if c["kind"] == "param" else "attr"))
     facts["in_kind"] = "+".join(sorted(kinds)) or "none"
-    # a FunctionDef before the class / function named by the first component at module level
+    # a FunctionDef before the class named by the first component, at module level
     first = None
     for i, s in enumerate(in_tree.body):
-        if isinstance(s, (ast.ClassDef, ast.FunctionDef)) and s.name == ip_comps[0]:
+        if isinstance(s, ast.ClassDef) and s.name == ip_comps[0]:
             first = i
             break
-    facts["fn_before_class"] = bool(first is not None and isinstance(in_tree.body[first], ast.ClassDef)
-                                    and any(isinstance(s, ast.FunctionDef) for s in in_tree.body[:first]))
+    facts["fn_before_class"] = bool(first is not None and any(isinstance(s, ast.FunctionDef) for s in in_tree.body[:first]))
     return facts
+
+
+def ambiguous_head(tree, comps):
+    """a class and a function (or two classes) at module level share the path's first component"""
+    if len(comps) < 2:
+        return False
+    kinds = [type(s).__name__ for s in tree.body if isinstance(s, (ast.ClassDef, ast.FunctionDef, ast.AsyncFunctionDef)) and s.name == comps[0]]
+    return len(set(kinds)) > 1 or kinds.count("ClassDef") > 1
+
+
+def root_cause(case, res, facts, in_tree, in_cands, out_is_stmt, out_positions=()):
+    """the first applicable explanation, from probes of the real code (find_in_ast, annotate_ancestry) — names the region"""
+    probe = res["probe"]
+    if not case["eval"]:
+        f = probe.get("find")
+        if f is None:
+            return {"cause": "input-lookup-none",
+                    "why": "keyword-only-input" if "kwonly" in facts["in_kind"] else "function-def-before-class" if facts["fn_before_class"] else "other"}
+        if isinstance(f, dict) and str(f.get("type", "")).startswith("raises:"):
+            return {"cause": "input-lookup-raises"}
+        if isinstance(f, dict) and "line" in f:
+            intended = {(node_at(in_tree, c["path"]).lineno, node_at(in_tree, c["path"]).col_offset) for c in in_cands}
+            if (f["line"], f["col"]) not in intended:
+                return {"cause": "input-lookup-wrong-node", "found": f["type"]}
+            if f["type"] == "arg" and out_is_stmt:
+                return {"cause": "arg-node-in-statement-list"}
+    if probe.get("located") and tuple(probe["located"][0]) not in out_positions:
+        # `_location` holds only the immediate parent's name: a nested definition can carry the same location
+        return {"cause": "location-shared-by-nested-definition"}
+    if probe.get("clash"):
+        return {"cause": "string-constant-clash"}
+    return {}
 
 
 def template_ok(wrap):
@@ -432,22 +472,17 @@ def _oracle(case, res):
                 if any(e[0] != own and e[0] in others for e in exp):
                     return ("skipped:rename-collision" if not fails else "failed"), fails
     facts = input_facts(in_tree, ip, in_cands) if not case["eval"] else {"in_kind": "eval"}
+    if any(c["kind"] == "stmt" and len(c["path"]) > 4 for c in out_cands + in_cands):
+        return ("skipped:nested-class-path" if not fails else "failed"), fails
+    if ambiguous_head(before, op) or (not case["eval"] and ambiguous_head(in_tree, ip)):
+        return ("skipped:class-and-function-share-a-name" if not fails else "failed"), fails
     out_kind = "+".join(sorted({("kwonly" if c.get("list") == "kwonlyargs" else "param") if c["kind"] == "param" else "attr" for c in out_cands}))
     region = {"in_kind": facts["in_kind"], "out_kind": out_kind}
+    cause = root_cause(case, res, facts, in_tree, in_cands, any(c["kind"] == "stmt" for c in out_cands),
+                       {(node_at(before, c["path"]).lineno, node_at(before, c["path"]).col_offset) for c in out_cands})
     # ---- did it run? ------------------------------------------------------------------------------------------
     if res["result"] != "ok":
-        sig = dict(region, kind="raises", exc=res["result"].split(":")[-1])
-        if not case["eval"]:
-            f = probe.get("find")
-            if f is None:
-                sig["cause"] = "input-lookup-none"
-                sig["why"] = ("keyword-only-input" if "kwonly" in facts["in_kind"] else "function-def-before-class" if facts["fn_before_class"] else "other")
-            elif isinstance(f, dict) and str(f.get("type", "")).startswith("raises:"):
-                sig["cause"] = "input-lookup-raises"
-        if "cause" not in sig and probe.get("clash"):
-            sig["cause"] = "string-constant-clash"
-        if "cause" not in sig and not case["eval"] and "attr" in out_kind and probe.get("find", {}) and probe["find"].get("type") == "arg":
-            sig["cause"] = "arg-node-in-statement-list"
+        sig = dict(region, kind="raises", exc=res["result"].split(":")[-1], **cause)
         if not res["out_same"]:
             sig["output_changed"] = True
         fails.append((sig, "sync_properties %s on a valid pair of paths (%s → %s)%s" % (res["result"], case["ip"], case["op"], ": " + res.get("msg", "") if res.get("msg") else "")))
@@ -455,7 +490,7 @@ def _oracle(case, res):
     try:
         after = norm_docstrings(ast.parse(res["after"]))
     except SyntaxError:
-        fails.append((dict(region, kind="unparseable-output"), "the rewritten output file is not valid Python"))
+        fails.append((dict(region, kind="unparseable-output", **cause), "the rewritten output file is not valid Python"))
         return "failed", fails
     # ---- frame -------------------------------------------------------------------------------------------------
     diffs = list(tree_diff(before, after))
@@ -474,16 +509,17 @@ def _oracle(case, res):
             if bo is not None:
                 try:
                     bt = norm_docstrings(ast.parse(bo))
-                    if dump(node_at(bt, d)) == dump(node_at(after, d)) if isinstance(node_at(after, d), ast.AST) else node_at(bt, d) == node_at(after, d):
+                    if node_at(bt, d) == node_at(after, d):
                         cl["cause"] = "black-docstring-normalisation"
                     else:
                         cl["cause"] = "ast_parse-docstring-reindent"
                 except Exception:  # noqa
                     pass
-        if cl["where"] == "default" and c0 is None and not case["eval"]:
-            cl["slot"] = "not-updated"
-        if "cause" not in cl and probe.get("clash") and cl["where"] in ("statement", "parameter"):
-            cl["cause"] = "string-constant-clash"
+        elif cl["where"] == "default":
+            if cl["of"] != "same-path-definition":
+                cl.update(cause)
+        else:
+            cl.update(cause)
         sig = dict(kind="frame", **cl)
         key = json.dumps(sig, sort_keys=True)
         if key not in seen:
@@ -521,7 +557,7 @@ def _oracle(case, res):
                 if ann is None:
                     return ("skipped:no-annotation-for-attribute" if not fails else "failed"), fails
                 if not isinstance(a_node, ast.AnnAssign) or not isinstance(a_node.target, ast.Name) or a_node.target.id != want_name:
-                    why.append("statement %s, expected annotated %r" % (show(a_node), want_name))
+                    why.append("statement %s, expected annotated %r" % (show(a_node)[:60], want_name))
                     continue
                 if dump(a_node.annotation) != dump(ann):
                     why.append("annotation %s, expected %s" % (show(a_node.annotation), show(ann)))
@@ -532,8 +568,8 @@ def _oracle(case, res):
         if slot_ok:
             break
     if not slot_ok:
-        sig = dict(region, kind="slot")
-        if case["eval"]:
+        sig = dict(region, kind="slot", **cause)
+        if case["eval"] and "cause" not in sig:
             ev = probe["eval"]
             got = None
             try:
@@ -543,15 +579,8 @@ def _oracle(case, res):
                 pass
             if got is not None and got == dump(wrap_expr(case["wrap"], literal_expr(ev["items"], strip_quotes=True))):
                 sig["cause"] = "set_value-strips-quotes"
-        else:
-            f = probe.get("find")
-            if isinstance(f, dict) and "line" in f:
-                intended = {(node_at(in_tree, c["path"]).lineno, node_at(in_tree, c["path"]).col_offset) for c in in_cands}
-                if (f["line"], f["col"]) not in intended:
-                    sig["cause"] = "input-lookup-wrong-node"
-                    sig["found"] = f["type"]
         if "cause" not in sig and c0 is None:
-            sig["cause"] = "string-constant-clash" if probe.get("clash") else "slot-not-updated"
+            sig["cause"] = "slot-not-updated"
         fails.append((sig, "the selected slot %s is not what the property describes: %s" % (case["op"], "; ".join(why[:3]))))
     return ("failed" if fails else "ok"), fails
 
@@ -609,8 +638,23 @@ def gen_case(r, k, stream):
             if i is None:
                 continue
         ipath, opath = list(i["path"]), list(o["path"])
+        # two definitions with one dotted path, only the later one has the selected parameter: let the input share its
+        # name with a parameter that only the earlier definition has
+        renamed = False
+        if not ev and "list" in o and r.random() < 0.6:
+            own = c13mod.stmt_at(out, o["pos"])
+            own_names = {x["name"] for kk in ("posonly", "args", "kwonly") for x in own["args"][kk]}
+            earlier = [s2 for s2 in osl if "list" in s2 and s2["path"][:-1] == o["path"][:-1] and s2["pos"] < o["pos"] and s2["list"] == "args"]
+            if earlier and not any(s2["path"][-1] == o["path"][-1] for s2 in earlier):
+                names = [s2["path"][-1] for s2 in earlier if s2["path"][-1] not in own_names and s2["path"][-1] not in ("self", "cls")]
+                if names:
+                    np_ = c13mod.rename_slot(inp, i, r.choice(names))
+                    if np_:
+                        ipath, renamed = np_, True
+                        if i["kind"] in ("attr", "var"):
+                            c13mod.slot_item(inp, i)["value"] = r.choice(["5", "'new'", "[1]"])
         # same name shared between input and output
-        if not ev and r.random() < 0.4:
+        if not ev and not renamed and r.random() < 0.4:
             np_ = c13mod.rename_slot(inp, i, opath[-1])
             if np_:
                 ipath = np_
